@@ -33,6 +33,9 @@ pub enum Ty {
     Enum(String, Vec<(String, VShape)>),
     Any,
     Ignored,
+    Spanned(Box<Ty>),
+    /// untyped tree whose every child is `Spanned<tree>`
+    Tree,
 }
 
 #[derive(Clone, Debug)]
@@ -52,6 +55,7 @@ pub enum Val {
     Map(Vec<(Val, Val)>),
     Struct(Vec<(String, Val)>),
     Variant(String, Box<Val>),
+    Spanned(serde_saphyr::Location, serde_saphyr::Location, Box<Val>),
 }
 
 impl PartialEq for Val {
@@ -72,6 +76,7 @@ impl PartialEq for Val {
             (Map(a), Map(b)) => a == b,
             (Struct(a), Struct(b)) => a == b,
             (Variant(a, x), Variant(b, y)) => a == b && x == y,
+            (Spanned(r, d, x), Spanned(r2, d2, y)) => r == r2 && d == d2 && x == y,
             _ => false,
         }
     }
@@ -121,11 +126,13 @@ impl Ty {
             }
             Ty::Any => "TAny".into(),
             Ty::Ignored => "TIgnored".into(),
+            Ty::Spanned(t) => format!("(TSpanned {})", t.coq()),
+            Ty::Tree => "TTree".into(),
         }
     }
     pub fn size(&self) -> usize {
         match self {
-            Ty::Option(t) | Ty::Seq(t) => 1 + t.size(),
+            Ty::Option(t) | Ty::Seq(t) | Ty::Spanned(t) => 1 + t.size(),
             Ty::Tuple(ts) => 1 + ts.iter().map(|t| t.size()).sum::<usize>(),
             Ty::Map(k, v) | Ty::Pairs(k, v) => 1 + k.size() + v.size(),
             Ty::Struct(fs, _) => 1 + fs.iter().map(|(_, t)| t.size()).sum::<usize>(),
@@ -172,6 +179,7 @@ impl Val {
                 coq::list(&l.iter().map(|(k, v)| format!("({}, {})", coq::s(k), v.coq())).collect::<Vec<_>>(), "(str * val)")
             ),
             Val::Variant(n, v) => format!("(VVariant {} {})", coq::s(n), v.coq()),
+            Val::Spanned(r, d, v) => format!("(VSpanned {} {} {})", crate::rawcoq::loc(r), crate::rawcoq::loc(d), v.coq()),
         }
     }
 }
@@ -423,6 +431,70 @@ impl<'de, 'a> Visitor<'de> for EnumV<'a> {
     }
 }
 
+/// What `serde_saphyr::Spanned<T>`'s visitor does: the newtype payload is asked for `any`, which the
+/// crate answers with a map value / referenced / defined.
+struct SpannedV<'a>(&'a Ty);
+impl<'de, 'a> Visitor<'de> for SpannedV<'a> {
+    type Value = Val;
+    fn expecting(&self, f: &mut fmt::Formatter) -> fmt::Result { f.write_str("a span-aware newtype wrapper") }
+    fn visit_newtype_struct<D: Deserializer<'de>>(self, d: D) -> Result<Val, D::Error> {
+        struct M<'a>(&'a Ty);
+        impl<'de, 'a> Visitor<'de> for M<'a> {
+            type Value = Val;
+            fn expecting(&self, f: &mut fmt::Formatter) -> fmt::Result { f.write_str("span-aware map") }
+            fn visit_map<A: MapAccess<'de>>(self, mut a: A) -> Result<Val, A::Error> {
+                let mut value = None;
+                let mut referenced = None;
+                let mut defined = None;
+                while let Some(k) = a.next_key::<String>()? {
+                    match k.as_str() {
+                        "value" => value = Some(a.next_value_seed(Seed(self.0))?),
+                        "referenced" => referenced = Some(a.next_value::<serde_saphyr::Location>()?),
+                        "defined" => defined = Some(a.next_value::<serde_saphyr::Location>()?),
+                        _ => return Err(de::Error::custom("unexpected key in Spanned representation")),
+                    }
+                }
+                match (value, referenced, defined) {
+                    (Some(v), Some(r), Some(d)) => Ok(Val::Spanned(r, d, Box::new(v))),
+                    _ => Err(de::Error::custom("incomplete Spanned representation")),
+                }
+            }
+        }
+        d.deserialize_any(M(self.0))
+    }
+}
+
+fn spanned_tree() -> &'static Ty {
+    static T: std::sync::OnceLock<Ty> = std::sync::OnceLock::new();
+    T.get_or_init(|| Ty::Spanned(Box::new(Ty::Tree)))
+}
+struct TreeV;
+impl<'de> Visitor<'de> for TreeV {
+    type Value = Val;
+    fn expecting(&self, f: &mut fmt::Formatter) -> fmt::Result { f.write_str("any value") }
+    fn visit_unit<E: de::Error>(self) -> Result<Val, E> { Ok(Val::Null) }
+    fn visit_bool<E: de::Error>(self, v: bool) -> Result<Val, E> { Ok(Val::Bool(v)) }
+    fn visit_i64<E: de::Error>(self, v: i64) -> Result<Val, E> { Ok(Val::Int(v as i128)) }
+    fn visit_u64<E: de::Error>(self, v: u64) -> Result<Val, E> { Ok(Val::Int(v as i128)) }
+    fn visit_f64<E: de::Error>(self, v: f64) -> Result<Val, E> { Ok(Val::Float(v)) }
+    fn visit_str<E: de::Error>(self, v: &str) -> Result<Val, E> { Ok(Val::Str(v.to_string())) }
+    fn visit_seq<A: SeqAccess<'de>>(self, mut a: A) -> Result<Val, A::Error> {
+        let mut out = Vec::new();
+        while let Some(v) = a.next_element_seed(Seed(spanned_tree()))? {
+            out.push(v);
+        }
+        Ok(Val::Seq(out))
+    }
+    fn visit_map<A: MapAccess<'de>>(self, mut a: A) -> Result<Val, A::Error> {
+        let mut out = Vec::new();
+        while let Some(k) = a.next_key_seed(Seed(spanned_tree()))? {
+            let v = a.next_value_seed(Seed(spanned_tree()))?;
+            out.push((k, v));
+        }
+        Ok(Val::Map(out))
+    }
+}
+
 struct AnyV;
 impl<'de> Visitor<'de> for AnyV {
     type Value = Val;
@@ -495,6 +567,8 @@ impl<'de, 'a> DeserializeSeed<'de> for Seed<'a> {
                 <de::IgnoredAny as de::Deserialize>::deserialize(d)?;
                 Ok(Val::Null)
             }
+            Ty::Spanned(t) => d.deserialize_newtype_struct("__yaml_spanned", SpannedV(t)),
+            Ty::Tree => d.deserialize_any(TreeV),
         }
     }
 }
